@@ -1,12 +1,148 @@
-(* Properties/C06.v — call checking (being extended in phase 2). *)
+(* Properties/C06.v — call checking: arguments against parameter types, result
+   type.  Only statements, `exact`, and Print Assumptions.
+
+   Call/Model.v: `cbind` = the C05 binder (PV.Binder.Bind.bind: positional-only,
+   positional-or-keyword, *args, keyword-only, **kwargs parameters; positional,
+   keyword, *star and **star arguments) with the argument values re-attached;
+   `check_call` = first pass (bound generation through T_k, list[T_k],
+   dict[T_k, T_j], Callable[[T_k], r]; defaults; collected *args/**kwargs as
+   one bound), the C15 solver per type variable, second pass of every bound
+   argument against the substituted annotation, default return.  The general
+   theorems are over any value operations `O`; the last block instantiates them
+   on the atom fragment (acceptance = the table dumped from the running
+   implementation, membership = the table computed by CPython). *)
 From Coq Require Import List Bool Arith NArith.
 Import ListNotations.
 Require Import PV.TypeVar.Base PV.TypeVar.Model PV.TypeVar.Spec PV.TypeVar.Simple PV.Call.Model.
 Require Import PV.Binder.Kind PV.Binder.Sig PV.Binder.Bind PV.Binder.PyBind.
-Require Import PV.Proofs.CallMain.
+Require Import PV.Proofs.CallMain PV.Proofs.CallAtoms PV.Proofs.SolveAtoms.
+Require Import PV.Gen.Solve PV.Gen.SolveAtoms PV.Gen.CallObjs.
 
+(* C05 composed: "a call that binds" — for every valid signature and every concrete
+   call, the model reports a binding failure exactly when CPython cannot bind the call *)
 Theorem C06_binding_failure_iff_cpython_rejects : forall (V : Type) (s : @csig V) c,
   valid_sig (sig_of s) = true -> concrete_call c = true -> names_nodup (map fst (a_kw c)) = true ->
   (cbind s c = None <-> py_bind (sig_of s) (length (a_pos c)) (map fst (a_kw c)) = false).
 Proof. exact @binding_failure_iff_cpython_rejects. Qed.
 Print Assumptions C06_binding_failure_iff_cpython_rejects.
+
+(* signatures without type variables: one incompatible_argument per parameter with a
+   rejected argument value, and nothing else — all parameter kinds, star arguments included *)
+Theorem C06_nongeneric_diagnostics_are_the_rejected_parameters :
+  forall (V : Type) (O : ops V) limit s c b,
+  no_tv s = true -> cbind s c = Some b ->
+  forall d, In d (fst (check_call O limit s c)) <->
+    exists p vs x, In (p, BVals vs) b /\ d = IncompatibleArgument (pname (cp p)) /\
+      In x vs /\ fits1 O (fun _ => any_generic O) (ann p) x = false.
+Proof. exact @nongeneric_diagnostics. Qed.
+Print Assumptions C06_nongeneric_diagnostics_are_the_rejected_parameters.
+
+(* diagnosed(call) <=> exists arg: not member(arg, declared(param)) *)
+Theorem C06_diagnosed_iff_some_argument_not_member :
+  forall (V : Type) (O : ops V) limit (Obj : Type) (val : Obj -> V) (member : Obj -> V -> bool),
+  (forall t o, acc O t (val o) = member o t) ->
+  forall s c b, no_tv s = true -> cbind s c = Some b -> literal_args val b ->
+  (diagnosed O limit s c = true <->
+   exists p vs t o, In (p, BVals vs) b /\ ann p = AnnTy t /\ In (AV (val o)) vs /\ member o t = false).
+Proof. exact @nongeneric_diagnosed_iff_nonmember. Qed.
+Print Assumptions C06_diagnosed_iff_some_argument_not_member.
+
+(* generic or not, any number of type variables: an accepted call comes with a value for
+   every type variable under which every bound argument value fits the substituted
+   parameter type, and the inferred type is the substituted return annotation —
+   otherwise an error is reported *)
+Theorem C06_accepted_call_arguments_fit_substituted_types :
+  forall (V : Type) (O : ops V) limit s c,
+  diagnosed O limit s c = false ->
+  exists b sol, cbind s c = Some b /\ snd (check_call O limit s c) = inferred O sol (cret s) /\
+    forall p vs x, In (p, BVals vs) b -> In x vs -> fits1 O sol (ann p) x = true.
+Proof. exact @accepted_call_arguments_fit. Qed.
+Print Assumptions C06_accepted_call_arguments_fit_substituted_types.
+
+(* the C15 solver-level findings (incomparable / Any upper bounds, constraints vs upper
+   bounds) cannot surface in an accepted call: every callback's parameter type — an upper
+   bound of T_k — accepts the value chosen for T_k, and its result is accepted by the value
+   chosen for its result variable *)
+Theorem C06_accepted_call_respects_callback_bounds :
+  forall (V : Type) (O : ops V) limit s c,
+  diagnosed O limit s c = false ->
+  exists b sol, cbind s c = Some b /\
+    forall p vs k r pv qv, In (p, BVals vs) b -> ann p = AnnFun k r -> In (AFun pv qv) vs ->
+      acc O pv (sol k) = true /\ (forall j, r = RVar j -> acc O (sol j) qv = true).
+Proof. exact @accepted_call_respects_callback_bounds. Qed.
+Print Assumptions C06_accepted_call_respects_callback_bounds.
+
+(* with C15 (the solution accepts every lower bound): once the first pass and the solver
+   succeed, an argument passed positionally or by keyword for a parameter annotated T_k is
+   accepted by the value chosen for T_k — the second pass never reports it *)
+Theorem C06_typevar_argument_accepted_by_solution :
+  forall (V : Type) (O : ops V) limit, acc_laws O ->
+  forall s (b : list (@cparam V * @barg V)) l p k v,
+  pass1 O limit s b = inr l -> resolve_ok O limit l = true ->
+  In (p, BVals [AV v]) b -> ann p = AnnVar k ->
+  acc O (sol_of O limit l k) v = true.
+Proof. exact @typevar_argument_accepted_by_solution. Qed.
+Print Assumptions C06_typevar_argument_accepted_by_solution.
+
+(* result type: for `-> T_k` the inferred type contains every literal passed for a
+   parameter annotated T_k (in particular the one an identity-like body returns) *)
+Theorem C06_identity_result_member :
+  forall (V : Type) (O : ops V) limit (Obj : Type) (val : Obj -> V) (member : Obj -> V -> bool),
+  (forall t o, acc O t (val o) = member o t) ->
+  forall s c b p k o,
+  cret s = RVar k -> diagnosed O limit s c = false -> cbind s c = Some b ->
+  In (p, BVals [AV (val o)]) b -> ann p = AnnVar k ->
+  member o (snd (check_call O limit s c)) = true.
+Proof. exact @identity_result_member. Qed.
+Print Assumptions C06_identity_result_member.
+
+(* ---- instantiation on the atom fragment: no hypotheses left ---- *)
+Theorem C06_atoms_acceptance_is_runtime_membership : forall t o, acc atom_ops t (obj_val o) = member o t.
+Proof. exact acc_literal_is_member. Qed.
+Print Assumptions C06_atoms_acceptance_is_runtime_membership.
+
+Theorem C06_atoms_diagnosed_iff_some_argument_not_member : forall s c b,
+  no_tv s = true -> cbind s c = Some b -> literal_args obj_val b ->
+  (diagnosed atom_ops rrs_limit s c = true <->
+   exists p vs t o, In (p, BVals vs) b /\ ann p = AnnTy t /\ In (AV (obj_val o)) vs /\ member o t = false).
+Proof. exact (nongeneric_diagnosed_iff_nonmember atom_ops rrs_limit obj_val member acc_literal_is_member). Qed.
+Print Assumptions C06_atoms_diagnosed_iff_some_argument_not_member.
+
+Theorem C06_atoms_typevar_argument_accepted_by_solution :
+  forall s (b : list (@cparam (@sval atom) * @barg (@sval atom))) l p k v,
+  pass1 atom_ops rrs_limit s b = inr l -> resolve_ok atom_ops rrs_limit l = true ->
+  In (p, BVals [AV v]) b -> ann p = AnnVar k ->
+  acc atom_ops (sol_of atom_ops rrs_limit l k) v = true.
+Proof. exact (typevar_argument_accepted_by_solution atom_ops rrs_limit atom_laws). Qed.
+Print Assumptions C06_atoms_typevar_argument_accepted_by_solution.
+
+Theorem C06_atoms_identity_result_member : forall s c b p k o,
+  cret s = RVar k -> diagnosed atom_ops rrs_limit s c = false -> cbind s c = Some b ->
+  In (p, BVals [AV (obj_val o)]) b -> ann p = AnnVar k ->
+  member o (snd (check_call atom_ops rrs_limit s c)) = true.
+Proof. exact (identity_result_member atom_ops rrs_limit obj_val member acc_literal_is_member). Qed.
+Print Assumptions C06_atoms_identity_result_member.
+
+(* non-trivial inputs:  def f(p0: T, /, p1: Callable[[T], U], *va: T, k: int = 0) -> T   (T, U unbounded) *)
+Example C06_examples :
+  let P n k d := mkParam n k d in
+  let s := mk_csig [mk_cparam (P 0%N PO false) (AnnVar 0) None;
+                    mk_cparam (P 1%N POK false) (AnnFun 0 (RVar 1)) None;
+                    mk_cparam (P 2%N VP false) (AnnVar 0) None;
+                    mk_cparam (P 3%N KO true) (AnnTy (SU [A_int])) (Some (AV (obj_val O_lit0)))]
+                   [Unbounded; Unbounded] (RVar 0) in
+  let g := AFun (SU [A_int]) (SU [A_str]) in
+  (* f(True, g_int_str, 1)  -> accepted, T := Literal[True, 1] *)
+  check_call atom_ops rrs_limit s (mk_ccall [AV (obj_val O_litTrue); g; AV (obj_val O_lit1)] None [] None)
+    = ([], SU [A_litTrue; A_lit1]) /\
+  (* f("a", g_int_str): the callback's parameter type int is an upper bound of T: solver error *)
+  fst (check_call atom_ops rrs_limit s (mk_ccall [AV (obj_val O_lita); g] None [] None)) = [CannotResolve] /\
+  (* f(1, p1=g, k="a"): k rejected *)
+  fst (check_call atom_ops rrs_limit s (mk_ccall [AV (obj_val O_lit1)] None [(1%N, g); (3%N, AV (obj_val O_lita))] None))
+    = [IncompatibleArgument 3%N] /\
+  (* f(p0=1, p1=g): positional-only parameter passed by keyword *)
+  fst (check_call atom_ops rrs_limit s (mk_ccall [] None [(0%N, AV (obj_val O_lit1)); (1%N, g)] None)) = [IncompatibleCall] /\
+  (* f( *xs) with xs: list[int]: p0 and *va take int, p1 takes int too and is rejected *)
+  fst (check_call atom_ops rrs_limit s (mk_ccall [] (Some (AV (SU [A_int]))) [] None)) = [IncompatibleArgument 1%N].
+Proof. vm_compute. repeat split. Qed.
+Print Assumptions C06_examples.
